@@ -350,6 +350,10 @@ class ProtocolContext:
                     IsInIdle, expired=True
                 )  # set_exception() will cause InvalidStateError
             raise exc.ProtocolSendFailed(msg) from err  # make msg *before* state reset
+        except asyncio.CancelledError:  # the caller was cancelled (so fut is too)
+            if self._cmd is cmd:  # stop (re-)sending it: there is no-one to tell
+                self.set_state(IsInIdle, expired=True)
+            raise
 
         try:
             return fut.result()
